@@ -200,6 +200,18 @@ def extract(repo=REPO, variant="default", verbose=False):
     stamp = os.path.join(outdir, "STAMP")
     if os.path.exists(stamp) and open(stamp).read().strip() == key:
         return outdir, units, False
+    # several checks may be started at the same time on the same tree: only one of them extracts a
+    # (tree, variant) pair, the others wait for it and then find the stamp
+    import fcntl
+    os.makedirs(os.path.join(BUILD, "facts", tag), exist_ok=True)
+    with open(os.path.join(BUILD, "facts", tag, variant + ".lock"), "w") as lockf:
+        fcntl.flock(lockf, fcntl.LOCK_EX)
+        return _extract_locked(repo, variant, verbose, units, spec, key, outdir, stamp)
+
+
+def _extract_locked(repo, variant, verbose, units, spec, key, outdir, stamp):
+    if os.path.exists(stamp) and open(stamp).read().strip() == key:
+        return outdir, units, False
     if os.path.isdir(outdir):
         shutil.rmtree(outdir)
     os.makedirs(os.path.join(outdir, "hdr"))
